@@ -953,6 +953,9 @@ CORPUS_TEXTS = [
     'python_version <= "3.10.0" and python_full_version > "3.10.1"', 'python_version ~= "3.8.0" or python_full_version >= "3.9.1"', 'python_version > "3.7.0.0" and python_full_version >= "3.8.5"',
     '"3.8.1" ~= python_full_version and python_full_version < "3.8.1"', '"3.8.*" == python_version or python_version < "3.8"', '"3.8.*" != python_version and python_version >= "3.8"',
     '"3.8" ~= python_version or python_version < "3.0"', '"3.7.*" == python_full_version and python_full_version >= "3.7.2"',
+    # a146c5c: an atom combined with itself
+    '"li" in sys_platform and "li" in sys_platform', '"li" not in sys_platform or "li" not in sys_platform', '"3.8.1" ~= python_full_version and "3.8.1" ~= python_full_version',
+    '"3.8.*" == python_version or "3.8.*" == python_version', '"3.11a3" < python_full_version and "3.11a3" < python_full_version', 'os_name == "nt" and os_name == "nt"',
     # 9db3cb1: a major-only python_version operand means X.0
     'python_version > "3" and python_full_version > "3.7.1"', 'python_version <= "3" or python_full_version >= "3.0.5"', 'python_version >= "3" and python_full_version < "3.0.2"',
     'python_version == "3" or python_full_version >= "3.1.0"', 'python_version < "3" and python_full_version >= "2.7.18"',
